@@ -20,14 +20,109 @@ PTR = ["zero", "self", "root", "other-kind", "beyond-file", "max32"]
 APPLIES = {
     "child-pointer": PTR, "rightmost-pointer": PTR, "overflow-first": PTR, "overflow-next": PTR, "master-rootpage": PTR,
     "cell-count": ["zero", "plus-one", "doubled", "max32", "random-byte"], "cell-pointer": ["zero", "plus-one", "doubled", "max32", "random-byte"],
-    "payload-length": ["zero", "plus-one", "minus-one", "doubled", "huge-length", "negative-varint"],
+    "payload-length": ["zero", "plus-one", "minus-one", "doubled", "huge-length", "negative-varint"],   # + "shortened" (systematic, below)
     "record-header-size": ["zero", "plus-one", "minus-one", "doubled", "huge-length", "negative-varint"],
     "serial-type": ["zero", "plus-one", "minus-one", "doubled", "huge-length", "negative-varint"],
     "rowid-varint": ["zero", "plus-one", "minus-one", "doubled", "huge-length", "negative-varint"],
     "page-type": ["zero", "other-kind", "random-byte"], "master-sql": ["text-garbage", "zero", "cut"],
     "header-field": ["random-byte", "zero", "max32"], "free-bytes": ["random-byte", "zero", "max32"], "truncate": ["cut"],
     "journal-bytes": ["random-byte", "text-garbage", "cut"],
+    "byte-sweep": ["zero", "max32", "plus-one", "minus-one", "huge-length"],
+    "journal-header": ["zero", "plus-one", "minus-one", "doubled", "max32", "huge-length", "cut"],
 }
+
+
+HOSTILE_SQL = [
+    # (object whose sql is replaced, new sql)
+    ("ser", "CREATE TABLE ser(a, b, z, PRIMARY KEY(nope))"),
+    ("ser", "CREATE TABLE ser(a, b, z, PRIMARY KEY(nope, a))"),
+    ("ser", "CREATE TABLE ser(a, b, z, UNIQUE(nope))"),
+    ("ser", "CREATE TABLE ser(a, b, z, PRIMARY KEY(nope)) WITHOUT ROWID"),
+    ("ser", "CREATE TABLE ser(a, b, z, PRIMARY KEY(a)) WITHOUT ROWID"),
+    ("ser", "CREATE TABLE ser(a INTEGER PRIMARY KEY, b, z)"),
+    ("ser", "CREATE TABLE ser(a)"),
+    ("ser", "CREATE TABLE ser(a, b, z, y, x, w DEFAULT 3, v NOT NULL)"),
+    ("ser", "CREATE TABLE ser(a, a, a)"),
+    ("ser", "CREATE TABLE ser(a, b, z, PRIMARY KEY(a, a, a))"),
+    ("ser", "CREATE TABLE other(a, b, z)"),
+    ("ser", "CREATE INDEX ser ON ser(a)"),
+    ("ser", "CREATE TABLE ser(rowid, oid, _rowid_)"),
+    ("ser", "CREATE TABLE ser(a PRIMARY KEY, b PRIMARY KEY, z PRIMARY KEY)"),
+    ("ser", "CREATE TABLE ser(a PRIMARY KEY, b PRIMARY KEY, z PRIMARY KEY) WITHOUT ROWID"),
+    ("ser", "CREATE TABLE ser(a, b, z) WITHOUT ROWID"),
+    ("wr", "CREATE TABLE wr(k PRIMARY KEY, v)"),
+    ("wr", "CREATE TABLE wr(k, v, PRIMARY KEY(nope)) WITHOUT ROWID"),
+    ("wr", "CREATE TABLE wr(k, v, PRIMARY KEY(v, k, v)) WITHOUT ROWID"),
+    ("wr", "CREATE TABLE wr(k INTEGER PRIMARY KEY, v) WITHOUT ROWID"),
+    ("wr", "CREATE TABLE wr(k, v) WITHOUT ROWID"),
+    ("wr", "CREATE TABLE wr(k PRIMARY KEY) WITHOUT ROWID"),
+    ("wr", "CREATE TABLE wr(k, v, u, t, PRIMARY KEY(t, u)) WITHOUT ROWID"),
+    ("wr", "CREATE TABLE wr(k UNIQUE, v UNIQUE, PRIMARY KEY(k, v), UNIQUE(v, k), UNIQUE(k)) WITHOUT ROWID"),
+    ("ser_z", "CREATE INDEX ser_z ON ser(nope)"),
+    ("ser_z", "CREATE INDEX ser_z ON ser(z, b, a, z, b, a)"),
+    ("ser_z", "CREATE INDEX ser_z ON wr(k)"),
+    ("ser_z", "CREATE INDEX ser_z ON nosuchtable(z)"),
+    ("ser_z", "CREATE TABLE ser_z(z)"),
+    ("ser_z", "CREATE INDEX ser_z ON ser(z COLLATE nosuchcollation DESC)"),
+    ("ser_z", "CREATE UNIQUE INDEX ser_z ON ser(z) WHERE nope > 1"),
+    ("ser_ba", "CREATE INDEX ser_ba ON ser(b)"),
+    ("ser_ba", "CREATE INDEX ser_ba ON ser(b, a, z, b)"),
+    ("deep", "CREATE TABLE deep(id, t, PRIMARY KEY(id DESC)) WITHOUT ROWID"),
+    ("deep", "CREATE TABLE deep(t, id INTEGER PRIMARY KEY)"),
+    ("deep_t", "CREATE INDEX deep_t ON deep(id)"),
+    ("deep_t", "CREATE INDEX deep_t ON deep(nope, t, id)"),
+    ("big", "CREATE TABLE big(id INTEGER PRIMARY KEY, t, PRIMARY KEY(nope))"),
+]
+
+
+def hostile_schemas(base_path, d):
+    """copies of the sweep file whose sqlite_master.sql was replaced through writable_schema"""
+    import sqlite3
+    out = []
+    for i, (obj, sql_) in enumerate(HOSTILE_SQL):
+        p = os.path.join(d, "hostile%03d.db" % i)
+        shutil.copy(base_path, p)
+        con = sqlite3.connect(p)
+        con.execute("PRAGMA writable_schema=ON")
+        n = con.execute("UPDATE sqlite_master SET sql=? WHERE name=?", (sql_, obj)).rowcount
+        con.commit()
+        con.close()
+        if n != 1:
+            raise Infra("hostile schema: object %s not found" % obj)
+        out.append((open(p, "rb").read(), "sql of %s := %s" % (obj, sql_)))
+        os.remove(p)
+    return out
+
+
+def sweep_db(path, ps):
+    """a small file whose records end in a value of every serial type (so that a record cut short by k bytes ends inside
+    a value of every width), with an index, a WITHOUT ROWID table, an overflowing row and a two-level tree"""
+    import sqlite3
+    if os.path.exists(path):
+        os.remove(path)
+    con = sqlite3.connect(path)
+    con.execute("PRAGMA page_size=%d" % ps)
+    con.execute("CREATE TABLE ser(a, b, z)")
+    lasts = [None, 5, 300, 70000, 1 << 25, (1 << 40) + 3, (1 << 60) + 7, 1.5, 0, 1, b"\x01\x02\x03", "xyz", -1, -(1 << 40)]
+    for i, z in enumerate(lasts):
+        con.execute("INSERT INTO ser VALUES(?,?,?)", (i, "t%d" % i, z))
+    for i, z in enumerate(lasts):            # the same values first and in the middle
+        con.execute("INSERT INTO ser VALUES(?,?,?)", (z, z, "e"))
+    con.execute("CREATE INDEX ser_z ON ser(z)")
+    con.execute("CREATE INDEX ser_ba ON ser(b, a)")
+    con.execute("CREATE TABLE wr(k PRIMARY KEY, v) WITHOUT ROWID")
+    for i, z in enumerate(lasts[1:]):
+        con.execute("INSERT INTO wr VALUES(?,?)", (z, i))
+    con.execute("CREATE TABLE big(id INTEGER PRIMARY KEY, t)")
+    con.execute("INSERT INTO big VALUES(1, ?)", ("o" * (ps * 2 + 50),))
+    con.execute("INSERT INTO big VALUES(2, 'small')")
+    con.execute("CREATE TABLE deep(id INTEGER PRIMARY KEY, t)")
+    for i in range(1, 3 * ps // 60):
+        con.execute("INSERT INTO deep VALUES(?, ?)", (i * 3, "d" * 40))
+    con.execute("CREATE INDEX deep_t ON deep(t, id)")
+    con.commit()
+    con.close()
+    return gen.describe(path)
 
 
 def run_worker(h, reqs, d, tag):
@@ -118,6 +213,35 @@ def run(tier):
         for cls in APPLIES["journal-bytes"]:
             for _ in range(reps):
                 add(pt.data, "journal-bytes", cls, "arbitrary bytes as -journal", base, journal=pt.journal(cls))
+    # the systematic part: every structured byte of a small file, every class; every payload length shortened by 2..8
+    sweeps = 0
+    for ps in (512,) if tier == "quick" else (512, 1024, 4096):
+        sp = os.path.join(d, "sweep%d.db" % ps)
+        sdesc = sweep_db(sp, ps)
+        spt = patcher.Patcher(sp, rnd)
+        sbase = (sp, sdesc, spt)
+        offs = spt.sweep_offsets(body=6 if tier == "quick" else 16)
+        if tier == "quick":
+            # the two-level table "deep" has many similar cells: keep every byte of the other pages, every 4th of its leaves
+            deep_pages = {p for p, (pg, root) in spt.pages.items() if root in (spt.roots.get("deep"), spt.roots.get("deep_t")) and pg.kind in ("tl", "il")}
+            keep_first = {min(deep_pages)} if deep_pages else set()
+            offs = [o for o in offs if (o // ps + 1) not in deep_pages or (o // ps + 1) in keep_first or o % 4 == 0]
+        for off in offs:
+            for cls in APPLIES["byte-sweep"]:
+                res = spt.sweep(off, cls)
+                if res is not None:
+                    add(res[0], "byte-sweep", cls, res[1], sbase)
+                    sweeps += 1
+        for img, what in spt.shortened():
+            add(img, "payload-length", "shortened", what, sbase)
+            sweeps += 1
+        for img, what in hostile_schemas(sp, d):
+            add(img, "master-sql", "inconsistent", what, sbase)
+            sweeps += 1
+        for cls, jb, what in spt.journal_headers():
+            add(spt.data, "journal-header", cls, what, sbase, journal=jb)
+            sweeps += 1
+    v.cov["byte_sweep_images"] = sweeps
     results, crashed = run_worker(h, reqs, d, "w")
     lines, order = [], []
     errs = 0
